@@ -14,6 +14,7 @@ import (
 	pb "github.com/marekgalovic/anndb/protobuf"
 	"github.com/marekgalovic/anndb/utils"
 
+	badger "github.com/dgraph-io/badger/v2"
 	"github.com/golang/protobuf/proto"
 	uuid "github.com/satori/go.uuid"
 	log "github.com/sirupsen/logrus"
@@ -128,7 +129,7 @@ func (this *Allocator) VerifPlacement(partitionCount uint, replicationFactor uin
 
 // VerifNewDataset builds a Dataset object the way createDataset does (newDataset), for a
 // node `selfId`, with the given replica assignment per partition. No raft group is loaded.
-func VerifNewDataset(selfId uint64, dim uint32, space pb.Space, replicationFactor uint32, partitionNodeIds [][]uint64) (*Dataset, error) {
+func VerifNewDataset(db *badger.DB, selfId uint64, dim uint32, space pb.Space, replicationFactor uint32, partitionNodeIds [][]uint64) (*Dataset, error) {
 	conn, err := cluster.NewConn(selfId, fmt.Sprintf("node-%d", selfId), "")
 	if err != nil {
 		return nil, err
@@ -138,7 +139,7 @@ func VerifNewDataset(selfId uint64, dim uint32, space pb.Space, replicationFacto
 	for _, nodeIds := range partitionNodeIds {
 		meta.Partitions = append(meta.Partitions, &pb.Partition{Id: uuid.NewV4().Bytes(), NodeIds: nodeIds})
 	}
-	return newDataset(id, meta, nil, nil, conn, nil)
+	return newDataset(id, meta, db, nil, conn, nil)
 }
 
 // VerifOwnerIndex is the index (in catalogue order) of the partition an id is routed to.
